@@ -118,6 +118,18 @@ def _close_discipline(p, mod, fd, c):
     return None, 'open() result handling not recognised: `{}`'.format(node_text(st))
 
 
+def _py3_class(mod, name):
+    """what a module-level name denotes on Python 3: `try: n = BrokenPipeError / except NameError: n = IOError` -> BrokenPipeError"""
+    for st in mod.body:
+        if isinstance(st, ast.Try):
+            for b in st.body:
+                if isinstance(b, ast.Assign) and dotted(b.targets[0]) == name and dotted(b.value) is not None:
+                    return dotted(b.value)
+        if isinstance(st, ast.Assign) and dotted(st.targets[0]) == name and dotted(st.value) is not None:
+            return dotted(st.value)
+    return name
+
+
 def rule_rs_epipe(cx, rep, port='py'):
     p = cx.py
     w = p.cls('rbql_csv', 'CSVWriter')
@@ -163,6 +175,36 @@ def rule_rs_epipe(cx, rep, port='py'):
     init = ms['__init__']
     ini = [n for n in walk_no_nested(init) if isinstance(n, ast.Assign) and dotted(n.targets[0]) == 'self.broken_pipe']
     rep.decide(len(ini) == 1 and is_false(ini[0].value), 'pipe flag init', ini[0] if ini else init, 'broken_pipe starts False', 'broken_pipe is not initialised to False')
+    # every handler of the broken-pipe class swallows *every* BrokenPipeError: a re-raise is allowed only under a test that is false
+    # when the caught class is BrokenPipeError itself (the Python 2 fallback `broken_pipe_exception == IOError`)
+    mod = p.modules['rbql_csv']
+    n_h = 0
+    for mname in ('write', 'finish'):
+        for h in [x for x in walk_no_nested(ms[mname]) if isinstance(x, ast.ExceptHandler) and x.type is not None]:
+            tname = dotted(h.type)
+            cls3 = _py3_class(mod, tname)
+            if cls3 not in ('BrokenPipeError', 'IOError', 'OSError', 'EnvironmentError'):
+                continue
+            n_h += 1
+            raises = [r for r in ast.walk(ast.Module(body=h.body, type_ignores=[])) if isinstance(r, ast.Raise) and r.exc is None]
+            bad = None
+            for r in raises:
+                guards = []
+                q = getattr(r, 'parent', None)
+                while q is not None and q is not h:
+                    if isinstance(q, ast.If):
+                        guards.append(q.test)
+                    q = getattr(q, 'parent', None)
+                dead = any(isinstance(t_, ast.Compare) and len(t_.ops) == 1 and isinstance(t_.ops[0], (ast.Eq, ast.Is)) and dotted(t_.left) == tname and dotted(t_.comparators[0]) in ('IOError', 'OSError') and cls3 == 'BrokenPipeError' and tname != cls3 for t_ in guards)
+                if not dead:
+                    bad = r
+            if bad is not None:
+                rep.violated('CSVWriter.{} broken-pipe handler re-raise'.format(mname), bad, 'the handler for `{}` (= {} on Python 3) re-raises unless errno == EPIPE: a BrokenPipeError with another errno (ESHUTDOWN) or none (in-process streams) escapes as an error instead of ending the query quietly'.format(tname, cls3))
+            elif cls3 != 'BrokenPipeError':
+                rep.undecided('CSVWriter.{} broken-pipe handler class'.format(mname), h, 'the handler catches {} and swallows it whole: whether other IO errors may be treated as a closed pipe is not decided'.format(cls3))
+            else:
+                rep.holds('CSVWriter.{} broken-pipe handler re-raise'.format(mname), h, 'every BrokenPipeError is swallowed ({} re-raise(s) are Python 2 only)'.format(len(raises)))
+    rep.require_count('broken-pipe handlers', n_h, 2, w)
     # finish(): flush errors from a dead pipe are swallowed, everything else propagates; closing iff close_stream_on_finish
     cl = [n for n in walk_no_nested(fin) if isinstance(n, ast.If) and dotted(n.test) == 'self.close_stream_on_finish']
     okc = len(cl) == 1 and any(isinstance(x, ast.Call) and dotted(x.func) == 'self.stream.close' for x in ast.walk(ast.Module(body=cl[0].body, type_ignores=[]))) and any(isinstance(x, ast.Call) and dotted(x.func) == 'self.stream.flush' for x in ast.walk(ast.Module(body=cl[0].orelse, type_ignores=[])))
@@ -441,3 +483,20 @@ def rule_fl_none_complete(cx, rep, port):
             key = '{}: `{}`'.format(m.name, node_text(t, 60))
             rep.decide(bool(sets), key, iff, 'the None -> empty string replacement sets ' + flag, 'a None value is replaced by an empty string in {} without setting {}: the output silently loses the distinction (no "None values in output" warning)'.format(m.name, flag))
     rep.require_count('None replacement sites', n, 1, cls)
+    # implicit replacements: joining a sub-array renders its None elements as '' (JS) or fails (Python) unless the very same array
+    # was normalised (recursively, by the method that sets the flag) first
+    nf = [x for x in cls.body if isinstance(x, ast.FunctionDef) and x.name == 'normalize_fields']
+    if len(nf) != 1:
+        rep.undecided('sub-array join', cls, 'normalize_fields not found')
+        return
+    nf = nf[0]
+    joins = [c for c in walk_no_nested(nf) if isinstance(c, ast.Call) and isinstance(c.func, ast.Attribute) and c.func.attr == 'join']
+    rep.require_count('sub-array joins', len(joins), 1, nf)
+    g = cfgmod.CFG(nf)
+    dom = g.dominators()
+    for j in joins:
+        arr = j.args[0] if port == 'py' else j.func.value
+        recs = [c for c in walk_no_nested(nf) if isinstance(c, ast.Call) and call_name(c) == 'self.normalize_fields' and len(c.args) == 1 and ast.dump(c.args[0]) == ast.dump(arr)]
+        jn = [n_ for n_ in g.nodes if cfgmod.node_contains(n_, lambda x: x is j)]
+        ok = bool(jn) and any(g.dominates(rn, jn[0], dom) for r in recs for rn in g.nodes if cfgmod.node_contains(rn, lambda x, r=r: x is r))
+        rep.decide(ok, 'sub-array join `{}`'.format(node_text(arr, 40)), j, 'the joined sub-array is normalised (None -> \'\' with the flag) before it is joined', 'the array joined here (`{}`) was not itself normalised first: None elements of a nested list reach the output as empty text without the "None values in output" warning'.format(node_text(arr, 60)))
